@@ -36,6 +36,18 @@ var c04RichPre = []model.Op{
 	{Op: "AddVertex", Graph: "g2", Elems: []*model.Elem{mv("a", "P", nil)}},
 }
 
+// c04HubPre: a vertex with 300 incident edges (a mutation of it touches more than 1000 keys)
+func c04HubPre() []model.Op {
+	var es []*model.Elem
+	for i := 0; i < 150; i++ {
+		es = append(es, me(fmt.Sprintf("ho%d", i), "r", "hub", "a", nil), me(fmt.Sprintf("hi%d", i), "s", "b", "hub", M{"w": float64(i)}))
+	}
+	return []model.Op{
+		{Op: "AddVertex", Graph: "g1", Elems: []*model.Elem{mv("hub", "P", M{"x": 1.0})}},
+		{Op: "AddEdge", Graph: "g1", Elems: es},
+	}
+}
+
 func c04Gen(g *fw.GenCtx) []fw.Case {
 	var cases []fw.Case
 	// (a) clean restarts: random C03 histories, a restart inserted at every position
@@ -77,6 +89,15 @@ func c04Gen(g *fw.GenCtx) []fw.Case {
 				cases = append(cases, fw.MkCase("crash", c04Crash{Base: b, Pre: c04RichPre, Call: call}))
 			}
 		}
+	}
+	// calls on a vertex with 300 incident edges
+	for _, call := range []model.Op{
+		{Op: "DelVertex", Graph: "g1", ID: "hub"},
+		{Op: "AddVertex", Graph: "g1", Elems: []*model.Elem{mv("hub", "Q", nil)}},
+		{Op: "DeleteGraph", Graph: "g1"},
+		{Op: "DelVertex", Graph: "g1", ID: "a"},
+	} {
+		cases = append(cases, fw.MkCase("crash", c04Crash{Base: 2, Pre: c04HubPre(), Call: call}))
 	}
 	if !g.Quick() {
 		for i, call := range alpha {
@@ -463,7 +484,7 @@ func init() {
 	fw.Register(&fw.Property{
 		ID:    "C04",
 		Level: "fault_enumeration",
-		Rule:  "(a) clean restarts: 12 / 400 random C03 histories of length 4-12, one variant per restart position (Badger closed and reopened before that step) plus one with two restarts, and every ordered pair of calls of the alphabet as the first two calls after a reopen (quick: from the richest base state, thorough: from all), full C03 observation set after every step against the abstract graph - in particular elements written after the reopen must be found through the label index; (b) crash points: every call of the C03 alphabet (39 calls incl. invalid ones) in 4 pre-states; the top-level KV writes W of the call are counted through a fault-injecting kvi.KVInterface decorator passed to kvgraph.NewKVGraph, then for EVERY k in 1..W the pre-state is rebuilt in a fresh directory, the call is interrupted before write k, the store is closed and reopened with a fresh kvgraph, and invariants I1 (adjacency entries <-> edge records, twins), I2 (label-index entries name existing elements with that label), I3 (every element is in its indexes), I4 (everything acknowledged before is intact; in-flight elements are in their old or new form) are checked. The crash points of each call are enumerated completely. Non-trivial = a history with a successful mutation / a call with at least one crash point.",
+		Rule:  "(a) clean restarts: 12 / 400 random C03 histories of length 4-12, one variant per restart position (Badger closed and reopened before that step) plus one with two restarts, and every ordered pair of calls of the alphabet as the first two calls after a reopen (quick: from the richest base state, thorough: from all), full C03 observation set after every step against the abstract graph - in particular elements written after the reopen must be found through the label index; (b) crash points: every call of the C03 alphabet (39 calls incl. invalid ones) in 4 pre-states, plus deletions and a relabelling around a vertex with 300 incident edges (more than 1000 keys); the top-level KV writes W of the call are counted through a fault-injecting kvi.KVInterface decorator passed to kvgraph.NewKVGraph, then for EVERY k in 1..W the pre-state is rebuilt in a fresh directory, the call is interrupted before write k, the store is closed and reopened with a fresh kvgraph, and invariants I1 (adjacency entries <-> edge records, twins), I2 (label-index entries name existing elements with that label), I3 (every element is in its indexes), I4 (everything acknowledged before is intact; in-flight elements are in their old or new form) are checked. The crash points of each call are enumerated completely. Non-trivial = a history with a successful mutation / a call with at least one crash point.",
 		Assumptions: []string{
 			"each top-level KV write (Set, Delete, DeletePrefix, committing Update, committing BulkWrite) is atomic and durable once it returns, so stopping before write k and reopening reaches the same logical state as killing the process; the thorough tier validates this for Badger by really SIGKILLing a child between writes",
 			"a transaction that performs no write (kvindex's lazy recount) is not a crash point",
